@@ -22,7 +22,7 @@ def run_property(pid, tier, repo_root, write=True, quiet=False):
     repo = Repo(repo_root)
     res = mod.check(repo, tier)
     extra = None
-    if tier == "thorough" and write and os.environ.get("VCHECK_NO_SELFTEST") != "1":
+    if tier == "thorough" and os.environ.get("VCHECK_NO_SELFTEST") != "1":
         from . import selftest
 
         extra = selftest.run_for(pid, repo_root, quiet=quiet)
